@@ -2,6 +2,7 @@ SPECIFICATION Spec
 CONSTANTS
   Chunks = 8
   TriplePermille = 5
+  MaxTried = 400
 INVARIANTS
   InvShape
   InvDiscriminates
